@@ -427,7 +427,12 @@ func runPersistCase(c pcase) presult {
 	if hang <= 0 {
 		hang = 8 * time.Second
 	}
+	// a forced step that does not complete means the model no longer describes the code (drift);
+	// once that has happened a few times in this batch, stop paying the full wait for it
 	stepWait := 2 * time.Second
+	if atomic.LoadInt64(&stallCount) >= 16 {
+		stepWait = 25 * time.Millisecond
+	}
 	r := &prun{c: c, seq: map[int]int{}, status: map[int]int{0: stRunning}, last: map[int]string{},
 		rng: rand.New(rand.NewSource(c.Seed*7919 + int64(c.ID))), files: map[string][]string{},
 		wake: make(chan struct{}, 1), pathOf: make([]string, c.N+1)}
@@ -484,6 +489,7 @@ func runPersistCase(c pcase) presult {
 				r.release(pe)
 				if !r.waitQuiescent(stepWait) {
 					res.Diverged, tail = "drift", "free"
+					atomic.AddInt64(&stallCount, 1)
 					break
 				}
 				r.mu.Lock()
@@ -615,6 +621,7 @@ func runPersistCase(c pcase) presult {
 // hangBudget stops a batch from spending minutes in watchdogs when the code under test
 // deadlocks systematically: after this many hung cases the rest is skipped (reported).
 var hangCount int64
+var stallCount int64
 
 func init() {
 	subcommands["persist"] = func(in, out string) error {
